@@ -179,7 +179,7 @@ class EquipmentType(ValidatorEnum):
     NUCLEAR_DETECTOR = "Nuclear-Detector"
     PACKER = "Packer"
     PAD = "Pad"
-    PANE = "Pane"
+    PANEL = "Panel"
     POSITIONING = "Positioning"
     PRINTER = "Printer"
     RADIOACTIVE_SOURCE = "Radioactive-Source"
